@@ -1,5 +1,10 @@
+mod c06;
+mod c07;
+mod c08;
 mod c12;
 mod c16;
+mod chain;
+mod market;
 mod util;
 
 use mcx::Scenario;
@@ -36,6 +41,9 @@ fn replay(file: &str) -> ! {
     let tier = v["tier"].as_str().unwrap_or("thorough");
     match scn {
         "paych" => replay_with(&c16::scenario(tier).0, &v),
+        "market/escrow" => replay_with(&c06::scenario(tier).0, &v),
+        "market/payments" => replay_with(&c07::scenario(tier).0, &v),
+        "market/lifecycle" => replay_with(&c08::scenario(tier).0, &v),
         "multisig" => replay_with(&c12::scenario(tier).0, &v),
         _ => {
             eprintln!("unknown scenario {scn}");
@@ -57,6 +65,9 @@ fn main() {
         "REPLAY" => replay(&args[2]),
         "C16" => c16::run(&tier),
         "C12" => c12::run(&tier),
+        "C06" => c06::run(&tier),
+        "C07" => c07::run(&tier),
+        "C08" => c08::run(&tier),
         x => {
             eprintln!("unknown check {x}");
             std::process::exit(2);
